@@ -72,7 +72,11 @@ pub(crate) const META_AND_ANNOTATIONS: [&str; 15] = [
 fn limited_str(node: &Value) -> String {
     let s = node.to_string();
     if s.len() > 100 {
-        format!("{}...", &s[..100])
+        let mut end = 100;
+        while !s.is_char_boundary(end) {
+            end -= 1;
+        }
+        format!("{}...", &s[..end])
     } else {
         s
     }
